@@ -24,6 +24,11 @@ def gen(rng, tier):
                 a, b = rng.randrange(n), rng.randrange(n); amt = rng.choice([1, 2, 7, 2 ** 65])
                 if bad: amt, a = rng.choice([(0, a), (-1, a), (1, n)])
                 ops.append([3, a, b, amt])
+        conf = common.confusable_sets(G["names"])
+        if conf and rng.random() < 0.7:      # two different firing sets whose names join to the same string, both in one history
+            grp = rng.choice(conf); A, B = rng.sample(grp, 2)
+            A = [v for v in A if v != q]; B = [v for v in B if v != q]
+            i = rng.randrange(len(ops) + 1); ops.insert(i, [2, A]); ops.insert(rng.randrange(i + 1, len(ops) + 1), [2, B])
         out.append({"G": G, "D": common.random_divisor(rng, G, big=rng.random() < 0.2), "q": q, "ops": ops, "s": rng.randrange(1 << 30)})
     return out
 def impl(c):
